@@ -10,24 +10,20 @@ world fm_params FMParams
 world fm_block_gas uint64
 world fm_transient_gas uint64
 
-// ---- leaf store accessors: assumed contracts over the abstract store view (conformance-tested, not proved)
+// ---- store accessors: verified in C17 (part C17-keeper) against the raw KV store / codec leaves of /verif/specs/c17/60_fmstore.spec;
+// other properties (C19) use them as callee contracts
 func (Keeper).GetParams
-    trusted
     ensures result == fm_params
 func (Keeper).SetParams
-    trusted
     modifies fm_params
-    ensures result == nil ==> fm_params == params
-    ensures result != nil ==> fm_params == old(fm_params)
+    ensures result == nil && fm_params == params
+    // `if err != nil { return err }` is dead: marshalling a Params message cannot fail (codec leaf, A-codec)
 func (Keeper).GetBlockGasWanted
-    trusted
     ensures result == fm_block_gas
 func (Keeper).SetBlockGasWanted
-    trusted
     modifies fm_block_gas
     ensures fm_block_gas == gas
 func (Keeper).GetTransientGasWanted
-    trusted
     ensures result == fm_transient_gas
 func (Keeper).Logger
     trusted
@@ -100,10 +96,117 @@ func (*Keeper).EndBlock
     use entry TruncMax(dec_mul(dec_of(fm_transient_gas), fm_params.MinGasMultiplier), gas_consumed_to_limit(ctx_blockgasmeter(ctx)))
     use entry MulAtMostOne(fm_transient_gas, fm_params.MinGasMultiplier)
 
-// C17: BeginBlock stores exactly the computed base fee (and nothing when it is nil)
+// all fields of q equal those of p except BaseFee, which is bf
+specfunc ParamsWithBaseFee(q FMParams, p FMParams, bf int) bool = q.NoBaseFee == p.NoBaseFee
+        && q.BaseFeeChangeDenominator == p.BaseFeeChangeDenominator && q.ElasticityMultiplier == p.ElasticityMultiplier
+        && q.EnableHeight == p.EnableHeight && q.MinGasPrice == p.MinGasPrice && q.MinGasMultiplier == p.MinGasMultiplier
+        && q.BaseFee == bf
+
+// ---- C17, accessors with logic of their own (verified against the raw store leaves, part C17-keeper)
+// the predicate the ante handler uses to decide whether gas is accumulated: the same as Params.IsBaseFeeEnabled(height), which
+// CalculateBaseFee uses (`enabled` there), for every height including height == EnableHeight
+func (Keeper).GetBaseFeeEnabled
+    ensures result == (!fm_params.NoBaseFee && ctx_height(ctx) >= fm_params.EnableHeight)
+
+// the stored base fee becomes exactly *baseFee (any size, no truncation), nothing else in the parameters changes
+func (Keeper).SetBaseFee
+    requires nonnil: baseFee != nil
+    modifies fm_params
+    ensures stored: ParamsWithBaseFee(fm_params, old(fm_params), old(*baseFee))
+    // `if err != nil { return }` after SetParams is dead: SetParams cannot fail
+
+func (Keeper).SetTransientBlockGasWanted
+    modifies fm_transient_gas
+    ensures fm_transient_gas == gasWanted
+
+// uint64 addition is modelled without wrap-around: the precondition makes that explicit
+func (Keeper).AddTransientGasWanted
+    requires nowrap: fm_transient_gas + gasWanted <= 18446744073709551615
+    modifies fm_transient_gas
+    ensures sum: fm_transient_gas == old(fm_transient_gas) + gasWanted
+    ensures res: result.0 == fm_transient_gas && result.1 == nil
+
+// C17: after BeginBlock the stored base fee is CalculateBaseFee's value - the EIP-1559 function of the stored base fee and the
+// recorded gas figure - and no other parameter changed; when CalculateBaseFee yields nil nothing is stored
 func (*Keeper).BeginBlock
+    let p = old(fm_params)
+    let h = ctx_height(ctx)
+    let cp = ctx_consparams(ctx)
+    let L = ite(cp != nil && cp.Block != nil && cp.Block.MaxGas > 0 - 1, cp.Block.MaxGas, 18446744073709551615)
+    let T = L / p.ElasticityMultiplier
+    let enabled = !p.NoBaseFee && h >= p.EnableHeight
     modifies fm_params
     requires valid: fm_params.BaseFeeChangeDenominator != 0 && fm_params.ElasticityMultiplier != 0 && fm_params.BaseFee >= 0
              && fm_params.MinGasPrice >= 0
     call SetBaseFee requires computed: baseFee != nil
+    ensures disabled: !enabled ==> fm_params == p
+    ensures first: enabled && h == p.EnableHeight ==> fm_params == p
+    ensures notarget: enabled && h != p.EnableHeight && T > 18446744073709551615 ==> fm_params == p
+    ensures eip1559: enabled && h != p.EnableHeight && T <= 18446744073709551615
+            ==> ParamsWithBaseFee(fm_params, p, NextBaseFee(p.BaseFee, fm_block_gas, T, p.BaseFeeChangeDenominator, dec_trunc(p.MinGasPrice)))
+
+// C17 over block sequences (composition of the contracts of EndBlock, BeginBlock / CalculateBaseFee, SetBaseFee): across the boundary
+// between block h and block h+1 the base fee b_h becomes NextBaseFee(b_h, max(trunc(wanted_h x m), used_h), T, den, floor), where
+// wanted_h is the transient gas-wanted counter at the end of block h and used_h the block gas meter's consumption; the figure is
+// what stays recorded, and no other parameter moves. (verifBlockBoundary in zz_sequence_verif.go = EndBlock(h); BeginBlock(h+1).)
+func verifBlockBoundary
+    let p = old(fm_params)
+    let w = old(fm_transient_gas)
+    let u = gas_consumed_to_limit(ctx_blockgasmeter(endCtx))
+    let fig = imax(dec_trunc(dec_mul(dec_of(w), p.MinGasMultiplier)), u)
+    let h1 = ctx_height(beginCtx)
+    let cp = ctx_consparams(beginCtx)
+    let L = ite(cp != nil && cp.Block != nil && cp.Block.MaxGas > 0 - 1, cp.Block.MaxGas, 18446744073709551615)
+    let T = L / p.ElasticityMultiplier
+    requires keeper: k != nil
+    // Params.Validate (post.valid)
+    requires valid: fm_params.BaseFeeChangeDenominator != 0 && fm_params.ElasticityMultiplier != 0 && fm_params.BaseFee >= 0
+             && fm_params.MinGasPrice >= 0 && fm_params.MinGasMultiplier >= 0 && fm_params.MinGasMultiplier <= dec_one()
+    // block h had a gas meter and its counters fit int64 (otherwise EndBlock records nothing: EndBlock post.nometer / post.overflow)
+    requires metered: ctx_blockgasmeter(endCtx) != nil && fm_transient_gas <= 9223372036854775807
+             && gas_consumed_to_limit(ctx_blockgasmeter(endCtx)) <= 9223372036854775807
+    modifies fm_params, fm_block_gas
+    ensures figure: fm_block_gas == fig
+    ensures disabled: (p.NoBaseFee || h1 < p.EnableHeight) ==> fm_params == p
+    ensures first: !p.NoBaseFee && h1 == p.EnableHeight ==> fm_params == p
+    ensures notarget: !p.NoBaseFee && h1 > p.EnableHeight && T > 18446744073709551615 ==> fm_params == p
+    ensures step: !p.NoBaseFee && h1 > p.EnableHeight && T <= 18446744073709551615
+            ==> ParamsWithBaseFee(fm_params, p, NextBaseFee(p.BaseFee, fig, T, p.BaseFeeChangeDenominator, dec_trunc(p.MinGasPrice)))
+    // consequences of the lemmas BaseFeeBounds / BaseFeeMonotone for one step: the new base fee is non-negative, and not below the
+    // floor when the old one was not
+    ensures bounds: !p.NoBaseFee && h1 > p.EnableHeight && T <= 18446744073709551615
+            ==> fm_params.BaseFee >= 0 && (p.BaseFee >= dec_trunc(p.MinGasPrice) ==> fm_params.BaseFee >= dec_trunc(p.MinGasPrice))
+    use return BaseFeeBounds(old(fm_params.BaseFee), fm_block_gas, T, old(fm_params.BaseFeeChangeDenominator), dec_trunc(old(fm_params.MinGasPrice)))
+
+// ---- C17 over block sequences, n boundaries: the base fee after n blocks is the n-fold iteration SeqFee of the one-step function
+// StepFee over the blocks' gas figures; it is never negative and never below the floor once it was at or above it.
+alias CtxSeq []github.com/cosmos/cosmos-sdk/types.Context
+alias U64Seq []uint64
+// the gas figure of a block: max(trunc(wanted x minGasMultiplier), used)
+specfunc FigOf(p FMParams, w int, endc Ctx) int = imax(dec_trunc(dec_mul(dec_of(w), p.MinGasMultiplier)), gas_consumed_to_limit(ctx_blockgasmeter(endc)))
+// the gas target seen by the next block's BeginBlock
+specfunc TargetOf(p FMParams, beginc Ctx) int = ite(ctx_consparams(beginc) != nil && ctx_consparams(beginc).Block != nil && ctx_consparams(beginc).Block.MaxGas > 0 - 1,
+        ctx_consparams(beginc).Block.MaxGas, 18446744073709551615) / p.ElasticityMultiplier
+// base fee after the boundary (block ending in endc with counter w, next block beginning in beginc), from base fee b
+specfunc StepFee(p FMParams, b int, w int, endc Ctx, beginc Ctx) int = ite(p.NoBaseFee || ctx_height(beginc) <= p.EnableHeight || TargetOf(p, beginc) > 18446744073709551615, b,
+        NextBaseFee(b, FigOf(p, w, endc), TargetOf(p, beginc), p.BaseFeeChangeDenominator, dec_trunc(p.MinGasPrice)))
+ghost func SeqFee(p FMParams, ends CtxSeq, begins CtxSeq, wanted U64Seq, i int) int
+    def ite(i <= 0, p.BaseFee, StepFee(p, SeqFee(p, ends, begins, wanted, i - 1), wanted[i-1], ends[i-1], begins[i-1]))
+
+func verifBlockSequence
+    let p = old(fm_params)
+    let floor = dec_trunc(old(fm_params).MinGasPrice)
+    requires keeper: k != nil
+    requires lens: len(begins) == len(ends) && len(wanted) == len(ends)
+    requires valid: fm_params.BaseFeeChangeDenominator != 0 && fm_params.ElasticityMultiplier != 0 && fm_params.BaseFee >= 0
+             && fm_params.MinGasPrice >= 0 && fm_params.MinGasMultiplier >= 0 && fm_params.MinGasMultiplier <= dec_one()
+    requires metered: forall j int :: 0 <= j && j < len(ends) ==> ctx_blockgasmeter(ends[j]) != nil
+             && gas_consumed_to_limit(ctx_blockgasmeter(ends[j])) <= 9223372036854775807 && wanted[j] <= 9223372036854775807
+    modifies fm_params, fm_block_gas, fm_transient_gas
+    ensures seq: ParamsWithBaseFee(fm_params, p, SeqFee(p, ends, begins, wanted, len(ends)))
+    ensures bounds: fm_params.BaseFee >= 0 && (p.BaseFee >= floor ==> fm_params.BaseFee >= floor)
+    loop 1 invariant idx: 0 <= #i && #i <= len(ends)
+    loop 1 invariant frame: k == old(k) && ends == old(ends) && begins == old(begins) && wanted == old(wanted)
+    loop 1 invariant seq: ParamsWithBaseFee(fm_params, p, SeqFee(p, ends, begins, wanted, #i))
+    loop 1 invariant bounds: fm_params.BaseFee >= 0 && (p.BaseFee >= floor ==> fm_params.BaseFee >= floor)
 @*/
